@@ -476,6 +476,8 @@ Section WithTerminal.
     | OForceDraw b | OSetTabWidth b => ok2 (bar_draw s b true now)
     | ODrop b => ok2 (bar_drop s b now)
     | OInsert bl b =>
+        (* fix bee77c9: adding a bar that is already a member of the MultiProgress has no effect *)
+        match b_target (get_bar s b) with TMulti _ => (s, [], true) | _ =>
         let loc :=
           match bl with
           | BEnd => Some LEnd
@@ -487,6 +489,7 @@ Section WithTerminal.
         match match loc with Some l => ms_insert (s_mp s) l | None => None end with
         | Some (m1, idx) => ok2 (bar_set_target (set_s_mp s m1) b (TMulti idx) now)
         | None => (s, [], true)   (* API misuse: reference bar is not a member (panics) - not generated *)
+        end
         end
     | ORemove b =>
         (* MultiProgress::remove (after fix dbf4cde): hide the bar, free its slot, forced redraw *)
